@@ -572,6 +572,20 @@ class Interp:
             fr.set(t.id, v)
         elif isinstance(t, (ast.Tuple, ast.List)):
             vals = self.iterate(v, t)
+            stars = [i for i, e in enumerate(t.elts) if isinstance(e, ast.Starred)]
+            if len(stars) > 1:
+                raise Unsupported('two starred targets')
+            if stars:
+                k = stars[0]
+                after = len(t.elts) - k - 1
+                if len(vals) < len(t.elts) - 1:
+                    raise PyExc('ValueError', 'unpack', site=(t.lineno, 'unpack'), kind='unpack')
+                for e, x in zip(t.elts[:k], vals[:k]):
+                    self.assign(e, x, fr)
+                self.assign(t.elts[k].value, PList(list(vals[k:len(vals) - after])), fr)
+                for e, x in zip(t.elts[k + 1:], vals[len(vals) - after:] if after else []):
+                    self.assign(e, x, fr)
+                return
             if len(vals) != len(t.elts):
                 raise PyExc('ValueError', 'unpack', site=(t.lineno, 'unpack'), kind='unpack')
             for e, x in zip(t.elts, vals):
